@@ -18,7 +18,7 @@ EXPLANATION = (
     "built on the false edge.  R-C12-3: modularity's value depends on communities, weighted, resolution, the degree functions and the "
     "induced subgraphs' edges.  R-C12-4: on the data path from the stored edge list to L_c (get_subgraph's edge list, the "
     "contribution closure of modularity) no operation on edges merges, drops or truncates them (unique/dedup/set-collect/take/...) "
-    "-- necessary for `parallel edges counted individually`.  R-C12-8: the self-loop correction of the degrees behind the degree sums is a count / sum, never a truth value turned into a number.  NOT decided: that is_partition is exactly the partition predicate, and Newman's formula (numerical)."
+    "-- necessary for `parallel edges counted individually`.  R-C12-8: the self-loop correction of the degrees behind the degree sums is a count / sum, never a truth value turned into a number.  R-C12-9: the per-community term is L_c/m - R*O*I*norm with m = S, norm = 1/S^2 (directed) resp. m = S/2, norm = 1/(2m)^2 (undirected), compared as expressions on a grid.  NOT decided: that is_partition is exactly the partition predicate, and Newman's formula (numerical)."
 )
 TRUSTED = ["rustc MIR construction", "over-approximated dependence (absence is definite)"]
 
@@ -169,6 +169,7 @@ def run(ctx):
     from props.c09 import degrees_from_edge_lists
 
     degrees_from_edge_lists(ctx, prog, flows, "R-C12-7", ("get_node_weighted_in_degree", "get_node_weighted_out_degree", "get_node_in_degree", "get_node_out_degree", "get_node_degree", "get_node_weighted_degree"), "the degree sums and m of the modularity formula count a bundle of parallel edges once (at its smallest weight) while L_c counts every edge")
+    modularity_formula(ctx, prog, flows, mo)
     from props.c09 import selfloop_term_counts_every_loop
 
     selfloop_term_counts_every_loop(ctx, prog, flows, "R-C12-8", "so the degree sums of the modularity formula fall short of 2m and a single community holding every node no longer has modularity 0")
@@ -207,3 +208,120 @@ def run(ctx):
                 n_lc += 1
                 ctx.require(not consts, "R-C12-5", "lc|%s" % cb.short.split("::{closure")[0], "the value counted from the induced subgraph's edges in %s has no constant alternative" % cb.short.split("::")[-1], "in %s the number/weight of a community's internal edges is a constant on some path (%s) instead of being counted from the induced subgraph: a self-loop on a node that is alone in its community is not counted in L_c" % (cb.short, loc_str(consts[0].span) if consts else ""), loc_str(from_sub[0].span))
     ctx.floor("R-C12-5", "lc_values", n_lc, 1)
+
+
+def modularity_formula(ctx, prog, flows, mo):
+    """R-C12-9.  "modularity equals the sum over communities of L_c/m - resolution * (out-degree sum x in-degree sum)/m^2
+    (undirected: L_c/m - resolution * (degree sum / 2m)^2)": the statement names an expression, and the code computes an
+    expression.  Both are compared as arithmetic over the quantities they share -- L_c (the sum / count over the induced
+    subgraph's edges), the two degree sums O and I of a community, the resolution R, and S = the sum of all degrees --
+    at a grid of points: (a) the two normalisers handed to the per-community closure are m = S and norm = 1/S^2 on the
+    directed arm, m = S/2 and norm = 1/S^2 = 1/(2m)^2 on the undirected one; (b) every definition that reaches the
+    closure's return is L_c/m - R*O*I*norm, with I = O when undirected.  Reaching definitions resolve the variables
+    that are assigned per arm; nothing is executed and no branch is decided."""
+    from engines import forms_of_def, classify_forms, FormulaEval, matches_form
+    from props.c01 import controlling_atoms
+    from flow import desc_mentions
+    import panic
+
+    ctx.rule("R-C12-9", "modularity's per-community term is L_c/m - R*O*I*norm with m = S, norm = 1/S^2 (directed) resp. m = S/2, norm = 1/(2m)^2 (undirected), as expressions over the edge term, the degree sums and the total degree")
+    clos = [c for c in prog.closures_of(mo.path) if c.local_ty(0) == "f64" and len([x for x in c.item.get("captures", []) if x["ty"] == "f64"]) == 2]
+    if len(clos) != 1:
+        ctx.undecided("R-C12-9", "shape", "the per-community term is no longer one closure with two captured f64 normalisers (found %d candidates); the formula is not compared" % len(clos), loc_str(mo.span))
+        return
+    cb = clos[0]
+    caps = cb.item.get("captures", [])
+    f64_ups = [x["name"] for x in caps if x["ty"] == "f64"]
+    map_ups = [x["name"] for x in caps if x["ty"].startswith("std::collections::HashMap<") and x["ty"].endswith("f64>")]
+    fl = flows.of(mo)
+    # ---- (a) the normalisers, per arm of specs.directed
+    grid_s = [(s_,) for s_ in (2.0, 5.0, 12.0, 31.0)]
+
+    def leaf_s(pt):
+        def leaf(d):
+            if d[0] == "call" and d[1].split("::")[-1] in ("sum", "fold") and desc_mentions(d, lambda x: x[0] == "call" and x[1].split("::")[-1] in ("values", "iter", "into_values")):
+                return pt[0]
+            return None
+        return leaf
+
+    forms_s = {"S": lambda pt: pt[0], "S/2": lambda pt: pt[0] / 2.0, "1/S^2": lambda pt: 1.0 / (pt[0] * pt[0])}
+    per_name = {}
+    undec = False
+    for nm in f64_ups:
+        per_name[nm] = {}
+        # the captured variable, and behind a plain copy the per-arm definitions
+        cands = [l for l in mo.locals_named(nm)]
+        terminal = []
+        for l in cands:
+            for (bb, d) in mo.assigns_to(l):
+                rv = getattr(d, "rv", None)
+                if rv is not None and rv.k == "use" and rv.ops and rv.ops[0].place is not None and not rv.ops[0].place.proj and mo.local_name(rv.ops[0].place.local) is None and len(mo.assigns_to(rv.ops[0].place.local)) > 1:
+                    terminal += mo.assigns_to(rv.ops[0].place.local)
+        if not terminal:
+            for l in cands:
+                if len(mo.assigns_to(l)) > 1:
+                    terminal += mo.assigns_to(l)
+        for (bb, d) in terminal:
+            dirv = [v for (te, v, a) in controlling_atoms(fl, bb) if isinstance(te, tuple) and te[0] == "place" and te[1].endswith("specs.directed")]
+            if len(dirv) != 1:
+                continue
+            fs = forms_of_def(fl, d, leaf_s, grid_s)
+            if fs is None or len(fs) != 1:
+                undec = True
+                continue
+            hit = [k for k, fn in forms_s.items() if matches_form(fs[0], fn, grid_s)]
+            per_name[nm][dirv[0]] = (hit[0] if hit else "?", fs[0], d)
+    m_name = next((nm for nm, a in per_name.items() if a.get(True, ("",))[0] == "S"), None)
+    n_name = next((nm for nm, a in per_name.items() if a.get(True, ("",))[0] == "1/S^2" and nm != m_name), None)
+    if undec or any(len(a) < 2 for a in per_name.values()):
+        ctx.undecided("R-C12-9", "normalisers", "the two normalisers of modularity are not plain arithmetic over the total degree on both arms of specs.directed; their form is not decided", loc_str(mo.span))
+    else:
+        want = {True: ("S", "1/S^2"), False: ("S/2", "1/S^2")}
+        if m_name is None or n_name is None:
+            got = {nm: {k: v[0] for k, v in a.items()} for nm, a in per_name.items()}
+            ctx.violation("R-C12-9", "normalisers", "on the directed arm the normalisers of modularity are not m = S and norm = 1/S^2 (S = sum of all out-degrees): %s" % got, loc_str(mo.span))
+        else:
+            for v in (True, False):
+                gm, gn = per_name[m_name][v], per_name[n_name][v]
+                ok = (gm[0], gn[0]) == want[v]
+                ctx.require(ok, "R-C12-9", "normalisers|directed=%s" % v, "directed=%s: m = %s, norm = %s" % (v, gm[0], gn[0]),
+                            "with specs.directed == %s modularity uses m = %s and norm = %s as functions of the total degree S (at S = %s: m = %s, norm = %s); the definition needs m = %s and norm = %s%s" % (v, gm[0], gn[0], grid_s[1][0], round(gm[1][1], 6), round(gn[1][1], 6), want[v][0], want[v][1], "" if v else " = 1/(2m)^2"), loc_str((gm[2] if gm[0] != want[v][0] else gn[2]).span))
+    # ---- (b) the per-community term
+    if m_name is None or n_name is None:
+        m_name, n_name = (f64_ups + [None, None])[:2]
+    cf = flows.of(cb)
+    grid_c = [(lc, o, i, r, m, n) for lc in (3.0, 8.0) for o in (4.0, 9.0) for i in (5.0, 7.0) for r in (1.0, 0.6) for m in (11.0,) for n in (0.013,)]
+
+    def leaf_c(pt):
+        def leaf(d):
+            if d[0] == "call":
+                last = d[1].split("::")[-1]
+                if last in ("sum", "len", "count", "fold"):
+                    if desc_mentions(d, lambda x: (x[0] == "call" and x[1].split("::")[-1] in ("get_all_edges", "get_subgraph")) or (x[0] == "place" and "edges" in x[1])):
+                        return pt[0]
+                    if len(map_ups) == 2 and desc_mentions(d, lambda x: x[0] == "place" and x[1] == map_ups[0]) and not desc_mentions(d, lambda x: x[0] == "place" and x[1] == map_ups[1]):
+                        return pt[1]
+                    if len(map_ups) == 2 and desc_mentions(d, lambda x: x[0] == "place" and x[1] == map_ups[1]) and not desc_mentions(d, lambda x: x[0] == "place" and x[1] == map_ups[0]):
+                        return pt[2]
+                if last in ("unwrap_or", "unwrap_or_else", "unwrap_or_default", "map_or") and desc_mentions(d, lambda x: x[0] == "place" and x[1].split(".")[0] in [c_["name"] for c_ in caps if c_["ty"].startswith("std::option::Option<f64")]):
+                    return pt[3]
+            if d[0] == "place" and d[1] == m_name:
+                return pt[4]
+            if d[0] == "place" and d[1] == n_name:
+                return pt[5]
+            return None
+        return leaf
+
+    allowed = {"L_c/m - R*O*I*norm": lambda pt: pt[0] / pt[4] - pt[3] * pt[1] * pt[2] * pt[5], "L_c/m - R*O*O*norm": lambda pt: pt[0] / pt[4] - pt[3] * pt[1] * pt[1] * pt[5]}
+    n_r, seen = 0, set()
+    for (bb, st) in cb.assigns_to(0):
+        n_r += 1
+        forms = forms_of_def(cf, st, leaf_c, grid_c)
+        if forms is None:
+            ctx.undecided("R-C12-9", "term|%d" % n_r, "the per-community term is not plain arithmetic over the edge term, the degree sums, the resolution and the two normalisers; its form is not decided", loc_str(st.span))
+            continue
+        ok, bad = classify_forms(forms, allowed, grid_c, zero_ok=False)
+        seen |= ok
+        ctx.require(not bad, "R-C12-9", "term|%d" % n_r, "the per-community term is %s" % " / ".join(sorted(ok)),
+                    "the per-community term of modularity is not L_c/m - resolution * O * I * norm: at (L_c, O, I, R, m, norm) = %s it evaluates to %s where the definition gives %s" % (grid_c[0], [round(f[0], 6) for f in bad], round(allowed["L_c/m - R*O*I*norm"](grid_c[0]), 6)), loc_str(st.span))
+    ctx.floor("R-C12-9", "term_definitions", n_r, 1)
